@@ -7,7 +7,7 @@ FILES = ['mesonbuild/mparser.py', 'mesonbuild/ast/printer.py', 'mesonbuild/ast/v
 ENCODED = ['mparser.Lexer.__init__/lex/getline (the 14 token regexes interpreted from CPython\'s parse trees)', 'mparser.Parser.* (e1..e9, args, key_values, statement, codeblock, '
            'ifblock, foreachblock, create_node, getsym)', 'all node constructors', 'ast.printer.RawPrinter', 'ast.visitor.FullAstVisitor', 'ParseException']
 EXPLANATION = ('Symbolic execution of the real lexer AND parser on symbolic source text: (a) every text up to a length bound over ASCII 1..126, (b) every text up to a larger bound over '
-               'a 20-character token alphabet (letters that spell not/in/and/or/if, digits, quotes, brackets, operators, newline), (c) windows of symbolic characters placed in '
+               'a 24-character token alphabet (letters that spell not/in/and/or/if, digits, quotes, brackets, operators, newline), (c) windows of symbolic characters placed in '
                'concrete grammar contexts (call arguments, arrays, dicts, conditions, ternaries, method chains, foreach), (d) skeleton programs with symbolic multi-line string '
                'bodies for the line/column accounting. Checked on every path: only ParseException escapes and it is located inside the text; token spans tile the input; on '
                'success RawPrinter reproduces the text exactly; the recorded extent of every FunctionNode/ArrayNode delimits exactly its own text.')
@@ -125,7 +125,7 @@ def classify(label, inputs):
 
 
 FULL = dict(lo=1, hi=126)
-TOK = "anotif1 ()[]{},:+='.\n#"
+TOK = "anotif1 ()[]{},:+='.\n#\u00e9"      # \u00e9: a non-ASCII letter (legal inside strings and comments only)
 
 
 def ob_free(n, small):
